@@ -76,8 +76,17 @@ fn judge_quoted(s: &str) -> Verdict {
 /// The same format after (and before) other primaries: its segmentation is the one it has alone
 /// (nothing an earlier primary said - an attribute name, a pattern, a file name - may leak into it).
 pub fn judge_in_context(s: &str, context: &str, after: bool) -> Verdict {
-    if s.is_empty() || s.contains('\'') || fmtscan::has_undocumented_xattr_name(s) || fmtscan::scan(s).is_err() {
-        return Verdict::Skip("not a valid quoted format");
+    if s.is_empty() || s.contains('\'') || fmtscan::has_undocumented_xattr_name(s) {
+        return Verdict::Skip("not a quoted format of the documented alphabet");
+    }
+    if fmtscan::scan(s).is_err() {
+        // a format with an undocumented directive is rejected wherever it stands
+        let text = if after { format!("{context} -printf '{s}'") } else { format!("-printf '{s}' {context}") };
+        return match catch(|| parse(&text)) {
+            Err(p) => Verdict::Fail(format!("parse panicked on {text:?}: {p}")),
+            Ok(Err(_)) => Verdict::Pass { nt: true, class: "invalid format next to other primaries: rejected" },
+            Ok(Ok((_, t))) => Verdict::Fail(format!("{text:?}: the format has an undocumented '%' directive, yet the input was accepted as {:?}", from_ast(&t))),
+        };
     }
     let alone = match catch(|| parse(&format!("-printf '{s}'"))) {
         Ok(Ok((_, t))) => from_ast(&t),
@@ -315,9 +324,9 @@ pub fn run(ctx: &Ctx) -> Report {
     // strings related to it: attribute tests whose name ends with, begins with or equals the name
     // of an attribute directive, patterns and files spelled like directives
     let mut stc = Stats::new();
-    let contexts = ["-xattr trusted.lov", "-xattr lov", "-xattr user.tag", "-xattr-match trusted.fid v", "-xattr-match user x.user", "-name %p", "-name '%{fid}'", "-pool fid", "-fprint %p", "-fprintf f '%{xattr:lov}'", "-printf '%{xattr:trustedlov}'", "-iname 'A\\101'", "-name x -o -xattr a", "( -xattr user -o -xattr tag )", "-printf '%p\\c'", "-size 5k", "-true"];
+    let contexts = ["-xattr trusted.lov", "-xattr lov", "-xattr user.tag", "-xattr-match trusted.fid v", "-xattr-match user x.user", "-name %p", "-name '%{fid}'", "-pool fid", "-fprint %p", "-fprintf f '%{xattr:lov}'", "-printf '%{xattr:trustedlov}'", "-iname 'A\\101'", "-name x -o -xattr a", "( -xattr user -o -xattr tag )", "-printf '%p\\c'", "-size 5k", "-true", "-quit", "-print", "-print0", "-prune", "-ls", "-depth", "-false", "-empty", "-nouser", "-print-file-fid", "-threads 2", "-quit -o -print", "! -quit"];
     let mut formats: Vec<String> = els.clone();
-    for f in ["%{xattr:lov}\\n", "%{xattr:tag}=%{xattr:user}", "%p %{xattr:a}", "%{xattr:fid}", "%{fid}", "%p\\n", "%%%p", "\\101%Ak"] {
+    for f in ["%{xattr:lov}\\n", "%{xattr:tag}=%{xattr:user}", "%p %{xattr:a}", "%{xattr:fid}", "%{fid}", "%p\\n", "%%%p", "\\101%Ak", "%z", "%", "%p%", "%{fid", "%A", "x%q\\n", "%{bogus}"] {
         formats.push(f.to_string());
     }
     for f in &formats {
